@@ -7,6 +7,13 @@
   the `fillna(<v>)` of the radius;
 * `_write_swc`: the attributes written by `write_meta=True`, the `Meta:` prefix;
 * `NODE_COLUMNS`, the default `soma_label` of `read_swc` / `SwcReader.__init__`, the dtype given to the `label` column.
+* `_write_swc` text assembly: whether a user supplied `header` string is newline-terminated before the rows are written
+  (`if not header.endswith("\\n"): header += "\\n"` on the str path), the literal lines of the generated header (every `header = / +=`
+  piece, f-string holes replaced by `‹…›`, `dedent` applied) and whether every piece ends with a line break, whether the Meta line
+  is only written on the generated-header path, the `csv.writer` delimiter;
+* reader: `COMMENT`, `DEFAULT_DELIMITER`, `DEFAULT_PRECISION`, the defaults of `read_swc` (`delimiter`, `precision`, `read_meta`, `fmt`,
+  `include_subdirs`, `limit`), the test of `read_header_rows`, the keyword arguments of `pd.read_csv`, the prefix test and slice of the Meta
+  row lookup, the columns `sanitise_nodes` requires, `base.parse_precision`'s two dtype tables, `base.Writer`'s default file-name patterns.
 
 The structure the model hard-wires (rule order, gating, override order) is *checked* here: a source that no
 longer has it makes the translator fail, which the check treats as a broken tie."""
@@ -84,14 +91,14 @@ def generate(repo: Path):
     init, rules = _label_rules(mk)
     sels = [r[0] for r in rules]
     want = ['type:branch', 'type:end', 'isin:soma', 'isin:pre_ids', 'isin:post_ids']
-    if sels != want:
-        raise ValueError(f'make_swc_table: label rules {sels} (expected {want} in this order)')
-    gates = [r[2] for r in rules]
-    if gates != [False, False, False, True, True]:
-        raise ValueError(f'make_swc_table: export_connectors gating {gates}')
+    # every rule the model knows must be present exactly once; their ORDER and GATING are data (`labelRules`), the theorem
+    # `Props.C07.label_rules_as_written` proves that the sequential assignments in this order compute the model's `autoLabel`
+    if sorted(sels) != sorted(want):
+        raise ValueError(f'make_swc_table: label rules {sels} (expected the selectors {want})')
     if init is None:
         raise ValueError('make_swc_table: initial label not found')
-    codes = dict(zip(['branch', 'end', 'soma', 'pre', 'post'], [int(r[1]) for r in rules]))
+    by_sel = {r[0]: int(r[1]) for r in rules}
+    codes = dict(branch=by_sel['type:branch'], end=by_sel['type:end'], soma=by_sel['isin:soma'], pre=by_sel['isin:pre_ids'], post=by_sel['isin:post_ids'])
     # pre_ids / post_ids come from x.presynapses / x.postsynapses
     srcs = {}
     for n in ast.walk(mk):
@@ -199,6 +206,261 @@ def generate(repo: Path):
     if meta_keys is None or meta_prefix is None:
         raise ValueError('_write_swc: write_meta keys / Meta line not found')
 
+    # ------------------------------------------------------------------ text assembly in _write_swc
+    import textwrap
+
+    def is_name(n, name):
+        return isinstance(n, ast.Name) and n.id == name
+
+    def nl_const(n):
+        return isinstance(n, ast.Constant) and n.value == '\n'
+
+    def ends_with_nl_test(t):
+        """`not header.endswith("\n")`"""
+        return isinstance(t, ast.UnaryOp) and isinstance(t.op, ast.Not) and isinstance(t.operand, ast.Call) \
+            and isinstance(t.operand.func, ast.Attribute) and t.operand.func.attr == 'endswith' and is_name(t.operand.func.value, 'header') \
+            and len(t.operand.args) == 1 and nl_const(t.operand.args[0])
+
+    def appends_nl(st):
+        if isinstance(st, ast.AugAssign) and isinstance(st.op, ast.Add) and is_name(st.target, 'header') and nl_const(st.value):
+            return True
+        if isinstance(st, ast.Assign) and len(st.targets) == 1 and is_name(st.targets[0], 'header') and isinstance(st.value, ast.BinOp) \
+                and isinstance(st.value.op, ast.Add) and is_name(st.value.left, 'header') and nl_const(st.value.right):
+            return True
+        return False
+
+    def generated_branch_test(t):
+        """`not isinstance(header, str)` / `header is None`"""
+        txt = ast.unparse(t).replace(' ', '')
+        return txt in ('notisinstance(header,str)', 'headerisNone', 'notheader', 'header==None')
+
+    # the If that separates "generate a header" from "use the given string"
+    gen_if = None
+    for n in ast.walk(wr):
+        if isinstance(n, ast.If) and generated_branch_test(n.test):
+            gen_if = n
+            break
+    if gen_if is None:
+        raise ValueError('_write_swc: the `if not isinstance(header, str)` split was not found')
+    gen_nodes = set()
+    for st in gen_if.body:
+        for n in ast.walk(st):
+            gen_nodes.add(id(n))
+    # newline termination of a given header: an `if not header.endswith("\n"): header += "\n"` that is NOT inside the generated branch
+    # and sits before the file is opened
+    terminated = False
+    for n in ast.walk(wr):
+        if isinstance(n, ast.If) and id(n) not in gen_nodes and ends_with_nl_test(n.test) and any(appends_nl(b) for b in n.body):
+            terminated = True
+    # pieces of the generated header, in source order
+
+    def piece_text(v):
+        """string a `header = / +=` statement contributes; f-string holes become ‹expr›; dedent(...) applied."""
+        if isinstance(v, ast.Call) and (is_name(v.func, 'dedent') or (isinstance(v.func, ast.Attribute) and v.func.attr == 'dedent')) and len(v.args) == 1:
+            return textwrap.dedent(piece_text(v.args[0]))
+        if isinstance(v, ast.Constant) and isinstance(v.value, str):
+            return v.value
+        if isinstance(v, ast.JoinedStr):
+            out = ''
+            for part in v.values:
+                if isinstance(part, ast.Constant):
+                    out += str(part.value)
+                else:
+                    out += '‹' + ast.unparse(part.value) + '›'
+            return out
+        raise ValueError(f'_write_swc: header piece not understood: {ast.unparse(v)[:80]}')
+    pieces = []          # (text, gated-by)
+
+    def visit_hdr(stmts, gate):
+        for st in stmts:
+            if isinstance(st, ast.Assign) and len(st.targets) == 1 and is_name(st.targets[0], 'header'):
+                pieces.append((piece_text(st.value), gate))
+            elif isinstance(st, ast.AugAssign) and isinstance(st.op, ast.Add) and is_name(st.target, 'header'):
+                pieces.append((piece_text(st.value), gate))
+            elif isinstance(st, ast.If):
+                visit_hdr(st.body, (gate + '&' if gate else '') + ast.unparse(st.test))
+                visit_hdr(st.orelse, gate)
+    visit_hdr(gen_if.body, '')
+    if not pieces:
+        raise ValueError('_write_swc: no generated header pieces found')
+    hdr_lines, hdr_gates = [], []
+    for txt, g_ in pieces:
+        ls = txt.split('\n')
+        if ls and ls[-1] == '':
+            ls = ls[:-1]
+        hdr_lines += ls
+        hdr_gates += [g_] * len(ls)
+    hdr_pieces_terminated = all(t.endswith('\n') for t, _ in pieces)
+    meta_gates = [g for t, g in pieces if 'Meta' in t]
+    meta_only_generated = bool(meta_gates)       # the Meta piece was found inside the generated branch
+    # no Meta piece outside the generated branch
+    for n in ast.walk(wr):
+        if isinstance(n, ast.JoinedStr) and id(n) not in gen_nodes and n.values and isinstance(n.values[0], ast.Constant) and 'Meta' in str(n.values[0].value):
+            meta_only_generated = False
+    # csv.writer(file, delimiter=" ")
+    write_delim, write_lineterm = None, '\\r\\n'
+    for n in ast.walk(wr):
+        if isinstance(n, ast.Call) and isinstance(n.func, ast.Attribute) and n.func.attr == 'writer' and is_name(n.func.value, 'csv'):
+            write_delim = ','
+            for kw in n.keywords:
+                if kw.arg == 'delimiter':
+                    write_delim = str(_const(kw.value))
+                if kw.arg == 'lineterminator':
+                    write_lineterm = str(_const(kw.value)).replace('\r', '\\r').replace('\n', '\\n')
+    if write_delim is None:
+        raise ValueError('_write_swc: csv.writer call not found')
+    # header written before the rows
+    order = []
+    for n in ast.walk(wr):
+        if isinstance(n, ast.Call) and isinstance(n.func, ast.Attribute) and n.func.attr == 'write' and n.args and is_name(n.args[0], 'header'):
+            order.append(('header', n.lineno))
+        if isinstance(n, ast.Call) and isinstance(n.func, ast.Attribute) and n.func.attr == 'writerows':
+            order.append(('rows', n.lineno))
+    order = [k for k, _ in sorted(order, key=lambda t: t[1])]
+    # ------------------------------------------------------------------ reader constants and defaults
+    consts = {}
+    for n in tree.body:
+        if isinstance(n, ast.Assign) and isinstance(n.targets[0], ast.Name) and n.targets[0].id in ('COMMENT', 'DEFAULT_DELIMITER', 'DEFAULT_PRECISION', 'DEFAULT_FMT'):
+            consts[n.targets[0].id] = _const(n.value)
+    for k in ('COMMENT', 'DEFAULT_DELIMITER', 'DEFAULT_PRECISION', 'DEFAULT_FMT'):
+        if k not in consts:
+            raise ValueError(f'{k} not found')
+    rs = _func(tree, 'read_swc')
+    rd_delim = default_of(rs, 'delimiter')
+    rd_prec = default_of(rs, 'precision')
+    rd_meta = default_of(rs, 'read_meta')
+    rd_fmt = default_of(rs, 'fmt')
+    rd_subdirs = default_of(rs, 'include_subdirs')
+    rd_limit = default_of(rs, 'limit')
+    # read_header_rows: `if not line.startswith(COMMENT): break`
+    rh = _func(tree, 'read_header_rows')
+    hdr_test = None
+    for n in ast.walk(rh):
+        if isinstance(n, ast.If) and any(isinstance(b, ast.Break) for b in n.body):
+            t_ = n.test
+            # `not <line>.startswith(COMMENT | "#")`, whatever the loop variable is called
+            if isinstance(t_, ast.UnaryOp) and isinstance(t_.op, ast.Not) and isinstance(t_.operand, ast.Call) and isinstance(t_.operand.func, ast.Attribute) \
+                    and t_.operand.func.attr == 'startswith' and len(t_.operand.args) == 1 \
+                    and (is_name(t_.operand.args[0], 'COMMENT') or (isinstance(t_.operand.args[0], ast.Constant) and t_.operand.args[0].value == consts['COMMENT'])):
+                hdr_test = 'not-startswith-comment'
+            else:
+                hdr_test = ast.unparse(t_)
+    # read_csv keywords
+    rb = _func(tree, 'read_buffer', 'SwcReader')
+    csv_kw = {}
+    for n in ast.walk(rb):
+        if isinstance(n, ast.Call) and isinstance(n.func, ast.Attribute) and n.func.attr == 'read_csv':
+            for kw in n.keywords:
+                v_ = kw.value
+                if isinstance(v_, ast.Name) and v_.id in consts:
+                    csv_kw[kw.arg] = str(consts[v_.id])          # module constant → its value
+                elif isinstance(v_, ast.Constant):
+                    csv_kw[kw.arg] = str(v_.value)
+                else:
+                    csv_kw[kw.arg] = ast.unparse(v_)
+    if not csv_kw:
+        raise ValueError('SwcReader.read_buffer: pd.read_csv call not found')
+    # Meta row lookup: r.lower().startswith("# meta:") ; meta_row[0][7:]
+    meta_lookup, meta_slice = None, None
+    for n in ast.walk(rb):
+        if isinstance(n, ast.Call) and isinstance(n.func, ast.Attribute) and n.func.attr == 'startswith' and n.args and isinstance(n.args[0], ast.Constant) \
+                and 'meta' in str(n.args[0].value).lower():
+            meta_lookup = ('lower:' if '.lower()' in ast.unparse(n.func.value) else 'exact:') + str(n.args[0].value)
+        if isinstance(n, ast.Subscript) and isinstance(n.slice, ast.Slice) and n.slice.lower is not None and n.slice.upper is None \
+                and 'meta_row' in ast.unparse(n.value):
+            meta_slice = int(_const(n.slice.lower))
+    if meta_lookup is None or meta_slice is None:
+        raise ValueError('SwcReader.read_buffer: Meta row lookup not found')
+    # sanitise_nodes: columns whose NaN drops the row
+    sn = _func(tree, 'sanitise_nodes')
+    key_cols = None
+    for n in ast.walk(sn):
+        if isinstance(n, ast.Subscript) and isinstance(n.slice, ast.List) and all(isinstance(e, ast.Constant) for e in n.slice.elts):
+            key_cols = [str(e.value) for e in n.slice.elts]
+            break
+    if key_cols is None:
+        raise ValueError('sanitise_nodes: key column list not found')
+    # base.parse_precision tables, base.Writer patterns
+    bpath = repo / 'navis' / 'io' / 'base.py'
+    btree = ast.parse(bpath.read_text())
+    pp = _func(btree, 'parse_precision')
+    tables = {}
+    for n in ast.walk(pp):
+        if isinstance(n, ast.Assign) and isinstance(n.targets[0], ast.Name) and n.targets[0].id in ('INT_DTYPES', 'FLOAT_DTYPES') and isinstance(n.value, ast.Dict):
+            tables[n.targets[0].id] = {(_const(k)): ast.unparse(v).replace('np.', '').replace('numpy.', '') for k, v in zip(n.value.keys, n.value.values)}
+    if set(tables) != {'INT_DTYPES', 'FLOAT_DTYPES'}:
+        raise ValueError('base.parse_precision: dtype tables not found')
+    ret_order = None
+    for n in ast.walk(pp):
+        if isinstance(n, ast.Return) and isinstance(n.value, ast.Tuple):
+            ret_order = [ast.unparse(e).split('[')[0] for e in n.value.elts]
+    if ret_order != ['INT_DTYPES', 'FLOAT_DTYPES']:
+        raise ValueError(f'base.parse_precision: returns {ret_order}')
+    precs = sorted(k for k in tables['INT_DTYPES'] if k is not None)
+    prec_rows = [(int(k), tables['INT_DTYPES'][k], tables['FLOAT_DTYPES'].get(k, '?')) for k in precs]
+    # which dtype each column gets in SwcReader.__init__: int_ / float_
+    col_kind = {}
+    for n in ast.walk(_func(tree, '__init__', 'SwcReader')):
+        if isinstance(n, ast.Dict):
+            for k, v in zip(n.keys, n.values):
+                if isinstance(k, ast.Constant):
+                    col_kind[str(k.value)] = ast.unparse(v).strip('"\'')
+    # Writer: generated file name in a folder / zip
+    ws = _func(btree, 'write_single', 'Writer')
+    wz = _func(btree, 'write_zip', 'Writer')
+    folder_name = None
+    for n in ast.walk(ws):
+        # filepath / f"{x.<attr>}{self.ext}": the attribute of the neuron that names the file
+        if isinstance(n, ast.JoinedStr) and n.values and isinstance(n.values[0], ast.FormattedValue) and isinstance(n.values[0].value, ast.Attribute) \
+                and is_name(n.values[0].value.value, 'x'):
+            folder_name = n.values[0].value.attr
+    zip_pattern = None
+    for n in ast.walk(wz):
+        if isinstance(n, ast.Assign) and is_name(n.targets[0], 'pattern') and isinstance(n.value, ast.BinOp) and isinstance(n.value.left, ast.Constant):
+            zip_pattern = str(n.value.left.value)
+    if folder_name is None or zip_pattern is None:
+        raise ValueError('base.Writer: default file-name patterns not found')
+    # parallel_read_archive / read_tar / read_directory: how an integer `limit` is applied
+    limit_rules = {}
+    for fname, cls in (('parallel_read_archive', None), ('read_tar', 'BaseReader'), ('read_directory', 'BaseReader')):
+        f_ = _func(btree, fname, cls)
+        rule = None
+        for n in ast.walk(f_):
+            if isinstance(n, ast.If) and 'isinstance(limit, int)' in ast.unparse(n.test):
+                rule = ast.unparse(n.test) + ' => ' + '; '.join(ast.unparse(b) for b in n.body)
+                break
+        limit_rules[fname] = rule or 'none'
+    # which reader methods every source kind is funnelled through: `self.<method>(…)` calls inside the BaseReader source methods
+    # (SwcReader overrides read_buffer / read_dataframe only)
+    br = None
+    for n in btree.body:
+        if isinstance(n, ast.ClassDef) and n.name == 'BaseReader':
+            br = n
+    src_methods = ['read_file_path', 'read_from_zip', 'read_zip', 'read_tar', 'read_directory', 'read_url', 'read_string', 'read_bytes', 'read_any_single',
+                   'read_any_multi', 'read_any']
+    funnel = []
+    br_methods = {m_.name for m_ in br.body if isinstance(m_, ast.FunctionDef)}
+    for m_ in br.body:
+        if isinstance(m_, ast.FunctionDef) and m_.name in src_methods:
+            callees = []
+            for n in ast.walk(m_):
+                if isinstance(n, ast.Attribute) and is_name(n.value, 'self') and n.attr in br_methods and n.attr.startswith('read_') and n.attr != m_.name and n.attr not in callees:
+                    callees.append(n.attr)
+            funnel.append((m_.name, callees))
+    overrides = []
+    for n in tree.body:
+        if isinstance(n, ast.ClassDef) and n.name == 'SwcReader':
+            overrides = [m_.name for m_ in n.body if isinstance(m_, ast.FunctionDef) and m_.name.startswith('read_')]
+    # `read_any_single`: the type tests in order
+    ras = _func(btree, 'read_any_single', 'BaseReader')
+    dispatch = []
+    for st in ras.body:
+        if isinstance(st, ast.If):
+            dispatch.append(ast.unparse(st.test))
+
+    def lstr(x):
+        return '"' + str(x).replace('\\', '\\\\').replace('"', '\\"') + '"'
+
     def strs(l):
         return '[' + ', '.join('"' + str(x) + '"' for x in l) + ']'
     lean = f'''/- GENERATED by translator/gen_swc.py from navis/io/swc_io.py.
@@ -213,6 +475,8 @@ def lblEnd : Int := {codes['end']}
 def lblSoma : Int := {codes['soma']}
 def lblPre : Int := {codes['pre']}
 def lblPost : Int := {codes['post']}
+/-- the rules in source order: (selector, code, only under `if export_connectors:`) -/
+def labelRules : List (String × Int × Bool) := [{', '.join('("' + r_[0] + '", ' + str(int(r_[1])) + ', ' + ('true' if r_[2] else 'false') + ')' for r_ in rules)}]
 /-- `swc["{sort_col}"] = {sort_key_src}` ; `swc.sort_values("{sort_col}", ascending={sort_asc}, kind="{sort_kind}")` -/
 def sortColumn : String := "{sort_col}"
 def sortAscending : Bool := {'true' if sort_asc else 'false'}
@@ -236,9 +500,53 @@ def readerLabelDtype : String := "{label_dtype}"
 /-- `_write_swc`: attributes written by `write_meta=True`, prefix of the meta line -/
 def metaKeys : List String := {strs(meta_keys)}
 def metaPrefix : String := "{meta_prefix}"
+/-- `_write_swc`, a user supplied `header=` string: `if not header.endswith("\\n"): header += "\\n"` is present on the str path -/
+def headerTerminated : Bool := {'true' if terminated else 'false'}
+/-- the literal lines of the generated header in source order (f-string holes as ‹expr›), every piece ends with a line break,
+the Meta line is only written on the generated-header path -/
+def genericHeaderLines : List String := [{', '.join(lstr(x) for x in hdr_lines)}]
+/-- the `if` conditions under which each of these lines is written ("" = always) -/
+def genericHeaderGates : List String := [{', '.join(lstr(x) for x in hdr_gates)}]
+def genericHeaderPiecesTerminated : Bool := {'true' if hdr_pieces_terminated else 'false'}
+def metaOnlyWithGeneratedHeader : Bool := {'true' if meta_only_generated else 'false'}
+/-- `file.write(header)` … `csv.writer(file, delimiter=…).writerows(…)` -/
+def writeOrder : List String := {strs(order)}
+def writeDelimiter : String := {lstr(write_delim)}
+def writeLineTerminator : String := "{write_lineterm}"
+/-- reader constants and `read_swc` defaults -/
+def commentChar : String := {lstr(consts['COMMENT'])}
+def defaultDelimiter : String := {lstr(consts['DEFAULT_DELIMITER'])}
+def readDelimiterDefault : String := {lstr(rd_delim)}
+def defaultPrecision : Nat := {int(consts['DEFAULT_PRECISION'])}
+def readPrecisionDefault : Nat := {int(rd_prec)}
+def readMetaDefault : Bool := {'true' if rd_meta else 'false'}
+def readFmtDefault : String := {lstr(rd_fmt)}
+def defaultFmt : String := {lstr(consts['DEFAULT_FMT'])}
+def includeSubdirsDefault : Bool := {'true' if rd_subdirs else 'false'}
+def limitDefaultIsNone : Bool := {'true' if rd_limit is None else 'false'}
+/-- `read_header_rows`: the loop stops at the first line with … -/
+def headerRowTest : String := {lstr(hdr_test)}
+/-- keyword arguments of `pd.read_csv` in `SwcReader.read_buffer` -/
+def readCsvArgs : List (String × String) := [{', '.join('(' + lstr(k) + ', ' + lstr(v) + ')' for k, v in sorted(csv_kw.items()))}]
+/-- Meta row lookup `r.lower().startswith(…)` and the slice `meta_row[0][k:]` -/
+def metaLookup : String := {lstr(meta_lookup)}
+def metaSlice : Nat := {meta_slice}
+/-- `sanitise_nodes`: a NaN in one of these columns drops the row -/
+def keyColumns : List String := {strs(key_cols)}
+/-- `base.parse_precision`: precision → (integer dtype, float dtype); which of the two every column is cast to -/
+def precisionTable : List (Nat × String × String) := [{', '.join('(' + str(p_) + ', ' + lstr(i_) + ', ' + lstr(f_) + ')' for p_, i_, f_ in prec_rows)}]
+def columnDtypeKind : List (String × String) := [{', '.join('(' + lstr(k) + ', ' + lstr(v) + ')' for k, v in col_kind.items())}]
+/-- `base.Writer`: generated file name in a folder, default pattern in a zip -/
+def folderFileNameAttr : String := {lstr(folder_name)}
+def zipPattern : String := {lstr(zip_pattern)}
+/-- `BaseReader`: the `self.read_*` methods each source method refers to (calls or hands to a pool); the `read_*` methods `SwcReader` defines -/
+def sourceFunnel : List (String × List String) := [{', '.join('(' + lstr(a) + ', ' + strs(b) + ')' for a, b in funnel)}]
+def swcReaderMethods : List String := {strs(overrides)}
 
 end Navis.Gen.Swc
 '''
     meta = dict(source=str(path.relative_to(repo)), label_codes=codes, init=init, sort=sort_col, sort_kind=sort_kind, sort_key=sort_key_src, depth_rule=depth_rule, first_id=offset, missing_parent=missing,
-                columns=cols, node_columns=node_cols, reader_soma_label=soma_read, label_dtype=label_dtype, meta_keys=meta_keys)
+                columns=cols, node_columns=node_cols, reader_soma_label=soma_read, label_dtype=label_dtype, meta_keys=meta_keys,
+                header_terminated=terminated, generic_header_lines=hdr_lines, write_delimiter=write_delim, read_csv=csv_kw, meta_lookup=meta_lookup,
+                meta_slice=meta_slice, key_columns=key_cols, precision_table=prec_rows, limit_rules=limit_rules, source_funnel=funnel, read_any_single_tests=dispatch, folder_file_name=folder_name, zip_pattern=zip_pattern)
     return 'Swc.lean', lean, meta
